@@ -217,7 +217,9 @@ Experiment(triples).run(sys.argv[2], quiet=True, processes=1, maxchunksperchild=
             for f in (path, cf):
                 if os.path.exists(f): os.remove(f)
     finally:
-        if os.path.exists(script): os.remove(script)
+        import glob
+        for f in [script] + glob.glob(os.path.join(work, "c02_kill_%d*" % os.getpid())):
+            if os.path.exists(f): os.remove(f)
 
 def run(ctx):
     from coba.context import CobaContext, NullLogger
